@@ -106,6 +106,7 @@ TRI3 = np.array([[[(0.0, 0.0, 0.0), (2.0, 0.25, 0.1)], [(-0.5, 1.0, 0.0), (3.0, 
 AFF1 = (3.0, 1.0)
 QUAD1 = (0.0, 0.3, 1.5)          # Bernstein coefficients of a monotone quadratic map
 R1, R2 = 1.0, 2.0
+SMALL = 1e-3          # 'nurbs-small': the same annulus shrunk by this factor (|det J| ~ 1e-6)
 
 
 def _normalise(xi, extents):
@@ -149,12 +150,13 @@ def geo_map(name, d, extents):
                 out.append(acc)
             return tuple(out)
         return ml
-    if name == "nurbs":
+    if name in ("nurbs", "nurbs-small"):
         w = 1.0 / math.sqrt(2.0)
+        r1, r2 = (R1, R2) if name == "nurbs" else (SMALL * R1, SMALL * R2)
         def ann(*xi):
             s = np.asarray(xi[0], dtype=float)
             t = np.asarray(xi[1], dtype=float)
-            r = R1 + (R2 - R1) * s
+            r = r1 + (r2 - r1) * s
             den = (1 - t) ** 2 + 2 * t * (1 - t) * w + t ** 2
             c = ((1 - t) ** 2 + 2 * t * (1 - t) * w) / den
             sn = (2 * t * (1 - t) * w + t ** 2) / den
